@@ -502,6 +502,7 @@ impl Check for C04 {
             if alpha.ifs { " / if" } else { "" },
             ctx.tier.pick(6usize, 9usize)
         );
+        ctx.rule.push_str("; plus programs about which declaration a name reaches (pattern keys that read names bound earlier in the same pattern, non-functions shadowing a called function, declared functions that outlive their scope, names read, captured and then shadowed)");
         let mut g_closure_outlives = false;
         let mut g_late_decl = false;
         let mut g_rec = false;
